@@ -12,6 +12,8 @@
 (*                 stored = "ok" | "err"                                      *)
 (*   purge : req = the purged tombstones; applied = those put back after a    *)
 (*           storage failure                                                  *)
+(*   diff  : other = the peer's set the poller handed in; changed / removed = *)
+(*           the answer of OrSWotSet::diff                                    *)
 (* each with `post`, the full state of the set.  lib/actor_trace.py groups    *)
 (* the lines by actor and replaces keys, origin node ids and times by their   *)
 (* ranks (order is all the set looks at); `mf` of the header line is the      *)
@@ -21,7 +23,8 @@
 (* Two kinds of finding are kept apart:                                       *)
 (*   fails : the property-level oracles (C04: greatest stamp wins, the        *)
 (*           will-apply prediction is true exactly when the view changes;     *)
-(*           C08: a purge changes nobody's view)                              *)
+(*           C08: a purge changes nobody's view; C05: a difference lists       *)
+(*           exactly what the peer holds and this replica is missing)         *)
 (*   drift : the logged state differs from what the faithful layer computes   *)
 (* After every line the model adopts the logged state, so one difference does *)
 (* not hide the rest of the trace.                                            *)
@@ -87,8 +90,22 @@ Expect(e) ==
                   (IF post.ent # st.ent THEN {"C08: a purge changed what is live"} ELSE {}),
                   (IF PairSet(e.req) # Purge(st)[1] THEN {"purged tombstones differ"} ELSE {}) >>
 
+\* on_diff: what the peer's set `other` holds that this actor is missing (the poller's question)
+DiffStep(e) ==
+  LET other == StOf(e.other)
+      got == <<PairSet(e.changed), PairSet(e.removed)>>
+      props == IF got # DiffSpec(st, other)
+               THEN {"C05: the difference is not exactly what the peer holds newer than (or unknown to) this replica"} ELSE {}
+      drifts == (IF got # Diff(st, other) THEN {"diff differs from the faithful layer"} ELSE {})
+                \cup (IF StOf(e.post) # st THEN {"the set changed without a logged mutation"} ELSE {})
+  IN /\ st' = StOf(e.post)
+     /\ UNCHANGED <<win, refused>>
+     /\ fails' = IF props = {} THEN fails ELSE Append(fails, <<l, props>>)
+     /\ drift' = IF drifts = {} THEN drift ELSE Append(drift, <<l, drifts>>)
+
 Step(e) ==
-  IF e.ev = "spawn"
+  IF e.ev = "diff" THEN DiffStep(e)
+  ELSE IF e.ev = "spawn"
   THEN /\ st' = StOf(e.post)
        /\ win' = WinOfState(StOf(e.post))
        /\ refused' = FALSE
